@@ -74,6 +74,10 @@ class ConcRunner:
             # transaction and straight after the lock is released
             self.sched.yield_in_txn = True
             self.sched.yield_after_release = True
+            if cfg.get('lines'):
+                import os as _os
+                self.sched.line_yields = _os.path.dirname(self.dc.__file__)
+                self.sched.max_steps = 400000
         self.caches = {}
         self.nreal = max(program)
 
@@ -94,6 +98,22 @@ class ConcRunner:
             return self.dc.Index.fromcache(cache)
         if self.kind == 'fanout':
             return self.dc.FanoutCache(self.parent, shards=1, timeout=self.timeout)
+        if self.cfg.get('attr_yields'):
+            # threads sharing the object also share its attributes: every assignment to one of them (after construction)
+            # is a scheduling point, before and after the write
+            drv = self
+
+            class SharedCache(self.dc.Cache):
+                def __setattr__(self, name, value):
+                    ready = self.__dict__.get('_verif_ready')
+                    if ready:
+                        drv.sched.yield_point('attr', name, nofault=True)
+                    object.__setattr__(self, name, value)
+                    if ready:
+                        drv.sched.yield_point('attr', name, nofault=True)
+            c = SharedCache(self.dir, timeout=self.timeout)
+            object.__setattr__(c, '_verif_ready', True)
+            return c
         return self.dc.Cache(self.dir, timeout=self.timeout)
 
     # snapshot through a given connection (sees that connection's uncommitted changes)
